@@ -34,3 +34,21 @@ Definition check (c : case) : bool :=
   qclose_list (map (fun g => evq env (Dq g (total c))) [Th 0; Nu 0; Nu 1]) (obs_grad c).
 Definition summary (cases : list case) :=
   let bad := filter (fun c => negb (check c)) cases in (length cases, length bad, firstn 5 (map cid bad)).
+
+(* ---- system losses: two networks U_n(P) = theta_n * P + b; one row = (alpha * a * U_n1(P1) + beta * U_n2(P2) + gamma) ---- *)
+Record row2 := mkrow2 { q_n1 : nat; q_P1 : QcF; q_n2 : nat; q_P2 : QcF; q_alpha : QcF; q_beta : QcF; q_gamma : QcF }.
+Definition Un (n : nat) (P : QcF) : expr QcF := Add (Mul (Var (Th n)) (Cst P)) B.
+Definition row2_expr (r : row2) : expr QcF :=
+  Add (Add (Mul (Cst (q_alpha r)) (Mul A (Un (q_n1 r) (q_P1 r)))) (Mul (Cst (q_beta r)) (Un (q_n2 r) (q_P2 r)))) (Cst (q_gamma r)).
+Record sspec := mks { s_nn : bool; s_a : bool; s_b : bool; s_w : QcF; s_rows : list row2 }.      (* mean over rows of w * row^2 *)
+Record scase := mkscase { scid : nat; sthetas : list QcF; spa : QcF; spb : QcF; sterms : list sspec; sobs_value : QcF; sobs_grad : list QcF }.
+Definition sterm_expr (t : sspec) : mask * expr QcF :=
+  ({| m_nn := s_nn t; m_eq := fun k => match k with O => s_a t | _ => s_b t end |},
+   meanE (map (fun r => Mul (Cst (s_w t)) (sqE (row2_expr r))) (s_rows t))).
+Definition stotal (c : scase) : expr QcF := g_total QcF (map sterm_expr (sterms c)).
+Definition scheck (c : scase) : bool :=
+  let env := mkenv [] (sthetas c) [spa c; spb c] in
+  g_derivkeys_wiring && qclose (evq env (stotal c)) (sobs_value c) &&
+  qclose_list (map (fun g => evq env (Dq g (stotal c))) [Th 0; Th 1; Nu 0; Nu 1]) (sobs_grad c).
+Definition ssummary (cases : list scase) :=
+  let bad := filter (fun c => negb (scheck c)) cases in (length cases, length bad, firstn 5 (map scid bad)).
